@@ -39,8 +39,14 @@ def gen_cases(ctx, n=None):
         if k_ % 5 == 1:
             # very precise data: every ln-likelihood of the library lies far below the exp() range of a double (about -1e5..-1e6), in
             # either unit -- the acceptance rule only ever sees differences to the maximum
+            # (precise data alone are absorbed by the linear parameters; the priors on those are made narrow as well)
             for sv in spec["surveys"]:
-                sv["err"] = [e / 64 for e in sv["err"]]
+                sv["err"] = [e / 16 for e in sv["err"]]
+            spec["theta"]["s"] = 0.0625 * (1.0 if spec["data_unit"] == "km/s" else 1000.0)  # a small jitter (a large one would absorb the misfit)
+            spec["kprior"] = "custom"
+            for p_ in spec["lin"] + spec["offs"]:
+                f_ = 1000.0 if p_["unit"].startswith("m/s") else 1.0
+                p_["mu"], p_["std"] = 0.0, f_ / 64
         if spec["theta"]["s"] == 0.0:  # a non-zero jitter, so that the unit of the `s` column matters on every path
             spec["theta"]["s"] = 0.625 * (1.0 if spec["data_unit"] == "km/s" else 1000.0)
         out.append(spec)
